@@ -1079,6 +1079,20 @@ fn label(ev: &Ev) -> String {
     format!("{:?}", ev)
 }
 
+/// a handler that asks for a lock while it holds one that ranks later can be parked for good by
+/// the task that takes them in the documented order
+fn lock_order(trace: Vec<saito_core::core::verif_lock::LockEvent>, h: &[Ev], r: &mut Report) {
+    for ev in trace {
+        if ev.rank == 0 {
+            continue;
+        }
+        if let Some((hr, _, hf)) = ev.held.iter().find(|(hr, _, _)| *hr != 0 && *hr > ev.rank) {
+            let file = ev.file.rsplit('/').next().unwrap_or(ev.file);
+            r.violate(&format!("handler-requests-a-lock-out-of-order/{}", file), format!("{}:{} asks for the lock of rank {} while holding rank {} (taken in {}) in a handler reached by {:?}", ev.file, ev.line, ev.rank, hr, hf, h.iter().rev().take(3).rev().collect::<Vec<_>>()), json!({"file": ev.file, "line": ev.line, "rank": ev.rank, "held_rank": hr}));
+        }
+    }
+}
+
 pub struct Explored {
     pub terminals: BTreeMap<String, Vec<Ev>>,
 }
@@ -1102,15 +1116,7 @@ pub fn explore(u: &Uni, lite: bool, alpha: &[Hostile], max_hostile: usize, rep: 
                 let _ = saito_core::core::verif_lock::trace_take();
                 return (r, vec![]);
             };
-            for ev in saito_core::core::verif_lock::trace_take() {
-                if ev.rank == 0 {
-                    continue;
-                }
-                if let Some((hr, _, hf)) = ev.held.iter().find(|(hr, _, _)| *hr != 0 && *hr > ev.rank) {
-                    let file = ev.file.rsplit('/').next().unwrap_or(ev.file);
-                    r.violate(&format!("handler-requests-a-lock-out-of-order/{}", file), format!("{}:{} asks for the lock of rank {} while holding rank {} (taken in {}) in a handler reached by {:?}", ev.file, ev.line, ev.rank, hr, hf, h.iter().rev().take(3).rev().collect::<Vec<_>>()), json!({"file": ev.file, "line": ev.line, "rank": ev.rank, "held_rank": hr}));
-                }
-            }
+            lock_order(saito_core::core::verif_lock::trace_take(), h, &mut r);
             if !ok {
                 return (r, vec![]);
             }
@@ -1121,7 +1127,13 @@ pub fn explore(u: &Uni, lite: bool, alpha: &[Hostile], max_hostile: usize, rep: 
                 hh.push(ev);
                 r.evaluations += 1;
                 r.transitions += 1;
-                let Some((s2, ok)) = replay(u, lite, &hh, &mut r) else {
+                // the extended history is traced as well: an event that leaves the node's state as it
+                // was (a request that is only answered) is dropped as a duplicate below and would
+                // otherwise never be replayed under the trace
+                saito_core::core::verif_lock::trace_start();
+                let res = replay(u, lite, &hh, &mut r);
+                lock_order(saito_core::core::verif_lock::trace_take(), &hh, &mut r);
+                let Some((s2, ok)) = res else {
                     r.outcome("event-not-enabled");
                     continue;
                 };
